@@ -7,26 +7,26 @@ HERE = os.path.dirname(os.path.dirname(os.path.abspath(__file__)))
 
 # id -> (technique, level text, level note, design ref)
 AI = "abstract interpretation of the package's own source over a term domain (sympy terms, units as algebra, if-conversion with path facts; the library is parsed, never imported or run)"
-RS = " Also rule RS: derived-state coherence dataflow (a memoised/derived attribute or functools.cached_property must be reset wherever the state it was computed from is assigned; a memoised array must not be handed out by reference; a cache computed from the own numeric value of a Quantity/ndarray subclass goes stale under inherited in-place operators) and rule RC (every model signal is also pushed through its class's own constructor chain; enumerated state must be stored as given)."
+RS = " Also rule RS: derived-state coherence dataflow (a memoised/derived attribute or functools.cached_property must be reset wherever the state it was computed from is assigned; a memoised array must not be handed out by reference; a cache computed from the own numeric value of a Quantity/ndarray subclass goes stale under inherited in-place operators) and rule RC (every model signal is also pushed through its class's own constructor chain; enumerated state must be stored as given) and rule RM (process-lifetime tables: by a backward slice over the function, every input a stored entry is computed from must be determined by the key it is stored under - incl. units, the file contents behind a path, closure variables; a functools-cached array is not handed out; a scratch array kept in such a table never becomes part of a result); attributes parked on an argument from outside its class count as derived state nobody can reset."
 
 CHECKS = {
     "C01": (AI + " + sign domain on slice bounds + truth-table Boolean equality",
-            "Decides, for every input, the time-metadata algebra of every cropping site (start_time' = start_time + clamp(start)/sample_rate with CPython's slice.indices clamp, sample_rate' = sample_rate/step, stop_time, dt, the Boolean form of contains), that a signal without start time never acquires one, the crop ledgers of fast_len and time_shift(crop=True), and that every signal-level slice bound computed by library code is non-negative. Not decided: floating-point rounding of astropy Time arithmetic." + RS,
+            "Decides, for every input, the time-metadata algebra of every cropping site (start_time' = start_time + clamp(start)/sample_rate with CPython's slice.indices clamp, sample_rate' = sample_rate/step, stop_time, dt, the Boolean form of contains), that a signal without start time never acquires one, the crop ledgers of fast_len and time_shift(crop=True), and that every signal-level slice bound computed by library code is non-negative. Rule NT: the same scenario evaluated with Python numbers and with NumPy scalars (numpy.int64 is not an int, numpy.float32 is not a float) gives the same outcome. Not decided: floating-point rounding of astropy Time arithmetic." + RS,
             "real-number semantics for formulas; API table for numpy/astropy; expected terms transcribed from the property statement", "4/C01"),
     "C02": (AI + "; small-scope exhaustive enumeration of channel counts and slice bounds",
-            "Decides the channel-label formula for all alignments and both parities (every radio class built through its own constructor chain, and after assigning freq_align through the setter), band edges, and that the labels of a frequency slice, of repeated/combined slices, of a trailing-axis selection and of a Stokes component selected by name - read back through the package's own channel_freqs property - equal the selected labels of the original. The frequency metadata of a slice is never re-cast to a narrower dtype. Not decided: Quantity round-off." + RS,
+            "Decides the channel-label formula for all alignments and both parities (every radio class built through its own constructor chain, and after assigning freq_align through the setter), band edges, and that the labels of a frequency slice, of repeated/combined slices, of a trailing-axis selection and of a Stokes component selected by name - read back through the package's own channel_freqs property - equal the selected labels of the original. The frequency metadata of a slice is never re-cast to a narrower dtype. Rule NT: the same scenario evaluated with Python numbers and with NumPy scalars (numpy.int64 is not an int, numpy.float32 is not a float) gives the same outcome. Not decided: Quantity round-off." + RS,
             "real-number semantics; sympy", "4/C02"),
     "C03": (AI + " with explicit per-element arrays (indexed Sel terms, store sets, explicit np.where masks)",
             "Decides the phase-ramp term ifft(fft(x)*exp(-2 pi i s k/N)) for scalar, Quantity and per-element array shifts (axis alignment of the shift read off the result term), NumPy and Dask branches, zero-fill coverage of the returned data for every broadcastable shift shape incl. sizes beyond every size threshold the code compares against and shift arrays containing the negative zero, crop bounds, the zero-fill extent of scalar shifts at chosen magnitudes (up to 1e5 samples with a small fraction, where a relative-tolerance snap would change it), unchanged metadata, refusal of too many shift axes. Not decided: DFT accuracy." + RS,
             "API table; real-number semantics; numpy basic-index store semantics", "4/C03"),
     "C04": (AI + " with explicit per-element arrays (store sets, explicit masks)",
-            "Decides the mixer term, transform pairing fft->fftshift->zeroing->ifftshift->ifft, zero-fill coverage of the returned data in bins for every broadcastable shift shape (negative-zero elements and full-bandwidth shifts of broadcast shape included), unit handling of the shift, unchanged metadata; on ten exact whole-bin witnesses the zero-fill extent is evaluated in IEEE doubles (every operation of the source rounded to nearest-even) and must be the k wrapped bins; no third-party routine may overwrite an operand that is the caller's data. Not decided: value accuracy." + RS,
+            "Decides the mixer term, transform pairing fft->fftshift->zeroing->ifftshift->ifft, zero-fill coverage of the returned data in bins for every broadcastable shift shape (negative-zero elements and full-bandwidth shifts of broadcast shape included), unit handling of the shift, unchanged metadata; on ten exact whole-bin witnesses the zero-fill extent is evaluated in IEEE doubles (every operation of the source rounded to nearest-even) and must be the k wrapped bins; no third-party routine may overwrite an operand that is the caller's data. Out-of-band shifts (2x, -3/2x, exactly the sample rate) return the caller's class, dtype and ledger on every return path. Not decided: value accuracy." + RS,
             "API table; real-number semantics", "4/C04"),
     "C05": (AI,
-            "Decides the transfer-function term including units and the constant K (|H| = 1 and H(DM)H(-DM) = 1 derived; finite and equal to the limit at an infinite reference frequency), per-channel chirp plumbing for NumPy and Dask signals (declared dtype/shape of the delayed chirp), the filtered data term, crop start/stop terms with clamping (compared in the unsaturated and the saturated regime), start-time advance, supplied-chirp agreement (also for a chirp held on the other back end than the signal), that no deferred per-channel callable captures the loop variable by reference. Not decided: complex64 accuracy." + RS,
+            "Decides the transfer-function term including units and the constant K (|H| = 1 and H(DM)H(-DM) = 1 derived; finite and equal to the limit at an infinite reference frequency), per-channel chirp plumbing for NumPy and Dask signals (declared dtype/shape of the delayed chirp), the filtered data term, crop start/stop terms with clamping (compared in the unsaturated and the saturated regime), start-time advance, supplied-chirp agreement (also for a chirp held on the other back end than the signal), that no deferred per-channel callable captures the loop variable by reference. Rule RF: an infinite reference frequency given as a bare float means the same as inf*u.Hz. Not decided: complex64 accuracy." + RS,
             "units as positive symbols; sympy", "4/C05"),
     "C06": (AI + "; fixed-delay scenarios for the realignment",
-            "Decides the delay law with units, antisymmetry/additivity, sample_delay = time_delay*rate for any DM unit, the per-channel realignment identity (symbolic delays: lo_i - crop = round(delay_i), own channel, equal lengths, in-range sources; fixed delay patterns: any slicing strategy - per channel, blocks, one slice - yields channel i over [crop+r_i, crop+r_i+N-max)), start-time advance, ledger. Not decided: Quantity rounding." + RS,
+            "Decides the delay law with units, antisymmetry/additivity, sample_delay = time_delay*rate for any DM unit, the per-channel realignment identity (symbolic delays: lo_i - crop = round(delay_i), own channel, equal lengths, in-range sources; fixed delay patterns: any slicing strategy - per channel, blocks, one slice - yields channel i over [crop+r_i, crop+r_i+N-max)), start-time advance, ledger. Rule RF: an infinite reference frequency given as a bare float means the same as inf*u.Hz. Not decided: Quantity rounding." + RS,
             "units as positive symbols; round as floor(x+1/2)", "4/C06"),
     "C07": (AI + " on a model of Phase objects; identical-argument recursion detection; record-array shape rules",
             "Decides the routing necessary for two-double results: no never-copy constructor on non-array operands, every ufunc family of the statement built by from_angles from the separate int/frac parts in operand order with the physical factor/divisor, termination, two-part correction, refinement step, returned value and out= routing of the floor-divide family also for Phase divisors, imaginary phases with an exactly-zero part, the real/imaginary flag of the result also when it is written into a supplied output Phase of the other kind, storage of both parts for operands of any broadcast shape (day_frac itself on operands that broadcast to a larger shape), refusal of arrays mixing real and imaginary elements, the real/imaginary sign table (i*i = -1); day_frac is additionally folded on ~60 concrete adversarial operand vectors (witness refutation of order-dependent or lossy accumulation, not a proof). Not decided: correctness of the error-free transformations for all doubles." + RS,
@@ -38,13 +38,13 @@ CHECKS = {
             "Decides that no signal method/transform forces a possibly-Dask value outside the sanctioned explicit points, that every public operation builds the same term with the same class/metadata on both back ends and stays Dask-backed, declared dtype/shape of delayed results, that a hand-written Dask token or an explicit name= of a delayed bound method contains the object's identity or state, that a lazy read wraps the same single read as the eager one, that no deferred callable captures a loop variable by reference and no mutable default argument is mutated, that the data parameter of every signal constructor is not forced, that Dask arrays created inside FFT-based transforms are one chunk along the transformed axis, that a Dask-backed out=/in-place target ends up as the NumPy-backed one would (a refused multi-output call leaves every target untouched), that Dask data of unknown extent is accepted by the constructors. Not decided: scheduler independence, chunk-layout acceptance, bitwise value equality." + RS,
             "API table of dispatching vs forcing numpy functions, re-validated against installed dask/numpy by introspection", "4/C09"),
     "C10": (AI + " reading path facts at the join",
-            "Decides (also for pieces with zero samples in time, joined along frequency) that for every piece the sample-rate, channel-bandwidth, type, time-contiguity (cumulative), equal-start and equal/adjacent-label conditions are facts of the accepting path, the result's start time, data term, labels read back and override set, definite refusals. Not decided: isclose tolerances." + RS,
+            "Decides (also for pieces with zero samples in time, joined along frequency) that for every piece the sample-rate, channel-bandwidth, type, time-contiguity (cumulative), equal-start and equal/adjacent-label conditions are facts of the accepting path, the result's start time, data term, labels read back and override set, definite refusals. Rule NT: the same scenario evaluated with Python numbers and with NumPy scalars (numpy.int64 is not an int, numpy.float32 is not a float) gives the same outcome. Not decided: isclose tolerances." + RS,
             "astropy isclose semantics", "4/C10"),
     "C11": (AI + " against a stream-reader/file model + effect scans + alias analysis of memoised results",
             "Decides bounds facts, operator.index flow, seek/read arguments, start time = time_at(offset), dtype/length, data term (conjugation, transposition, channel flip), reader state identical before/after and repeated read identical, Dask read = eager read (single read per request, declared dtype/shape), time_at/offset_at inverses also for relative times held in minutes or days (rounding in the held unit), no reading method writes reader state, tokeniser coverage, memoised results never written, factor-2 agreement for real data, real_to_complex against its definition on reader-shaped input (2n samples along axis 0, n = 1 included). Not decided: decoding inside baseband, real concurrency." + RS,
             "baseband API modelled by the stream-reader model", "4/C11"),
     "C12": (AI,
-            "Decides normalisation of t in all three forms (scale-aware Time difference), rejection guards, that shift, new start and final slice compose to start_time + t/sample_rate with exactly n samples (also for integer-dtype real data: no truncating cast), integer t takes the plain slice. Not decided: interpolation accuracy; floating-point round-off of the bounds test for durations." + RS,
+            "Decides normalisation of t in all three forms (scale-aware Time difference), rejection guards, that shift, new start and final slice compose to start_time + t/sample_rate with exactly n samples (also for integer-dtype real data: no truncating cast), integer t takes the plain slice. Rule NT: the same scenario evaluated with Python numbers and with NumPy scalars (numpy.int64 is not an int, numpy.float32 is not a float) gives the same outcome. Not decided: interpolation accuracy; floating-point round-off of the bounds test for durations." + RS,
             "real-number semantics", "4/C12"),
     "C13": (AI + " over complex symbols with explicit polarisation components",
             "Decides that a refused basis label leaves the old one, and all conversion and Stokes identities per branch (definitions of L/R, inverse, power, basis independence, I^2=Q^2+U^2+V^2, I=sum of intensities, component access by name on the Stokes axis also with trailing dimensions), whichever formulation (explicit formulas, matrix product, tensordot) the source uses. Not decided: float rounding." + RS,
@@ -53,13 +53,13 @@ CHECKS = {
             "Decides, for every input, that no library statement writes to anything that may alias an argument's object, buffer or metadata, or an object kept by a memo table (private derived attributes of self are sanctioned and handed to rule RS; overwrite_* options of third-party routines are sinks; __array__(copy=True) returns fresh storage; stores into the elements of an explicit out= tuple are the sanctioned mutation)." + RS,
             "view/copy table for numpy/astropy/dask; third-party code does not write its inputs unless listed", "4/C14"),
     "C15": (AI + " on the Phase model; IEEE-double evaluation of association-preserving terms on near-tie vectors; constant folding of concrete doubles for renderings",
-            "Decides that comparisons and argmin/argmax difference the parts before adding (and select the exact extremum in doubles), lexsort keys, that min/max/sort select by the flat index in logical order and that the index producers flatten in logical C order, that the per-axis indices select along their own axis for every axis number (0 included), decimal parsing of 600+ spellings exactly and of 23 spellings in IEEE doubles (nothing raises, parts within 2^-52), refusal of 20 non-decimal strings, from_string kind consistency (whole-number imaginary strings included), to_string and fixed-point format() renderings of dyadic and sub-resolution values (sign of values in (-1, 0) included) and the round trip. Not decided: renderings of arbitrary non-dyadic fractions." + RS,
+            "Decides that comparisons and argmin/argmax difference the parts before adding (and select the exact extremum in doubles), lexsort keys, that min/max/sort select by the flat index in logical order and that the index producers flatten in logical C order, that the per-axis indices select along their own axis for every axis number (0 included), decimal parsing of 600+ spellings exactly and of 23 spellings in IEEE doubles (nothing raises, parts within 2^-52), refusal of 20 non-decimal strings, from_string kind consistency (whole-number imaginary strings included), to_string and fixed-point format() renderings of dyadic and sub-resolution values (sign of values in (-1, 0) included) and the round trip. Fixed-point format of imaginary phases shows the requested decimals; a Phase re-created from plain array data is given its real/imaginary kind. Not decided: renderings of arbitrary non-dyadic fractions." + RS,
             "numpy.lexsort key order; CPython/NumPy shortest-repr of doubles", "4/C15"),
     "C16": (AI + " of constructors and setters on tables of valid/invalid arguments + who-may-write tables + signature agreement",
             "Decides that every metadata setter validates before storing and converts failures to ValueError (also on both arms of undecided tests, on even and odd channel counts), constructor shape/dtype contracts incl. byte order, baseband chan_bw tied to sample_rate at creation and by every library operation evaluated, like()/container helpers reproduce every state attribute, private fields written only by their setter/constructor (or re-validated through the constructor of the target's own class), a Dask-backed out=/in-place target keeps a dtype of its class, no pickling hooks." + RS,
             "astropy validators behave as documented; numpy casting table by introspection", "4/C16"),
     "C17": (AI + " of __array_ufunc__ with an abstract ufunc + protocol signature rules",
-            "Decides refusal of non-call methods and matmul before unwrapping, that signals among inputs/outs are replaced by their data and every other operand reaches the ufunc untouched (Python scalars stay scalars, Quantities keep their class), single call, kwargs forwarded (also together with out=), the promoted result dtype kept by the wrapper, rewrap in the dispatching signal's class or return of the given out object, Dask-backed out= targets left as NumPy would leave them (own dtype, or TypeError), __array__ protocol incl. copy=True returning a new array. Not decided: per-ufunc values." + RS,
+            "Decides refusal of non-call methods and matmul before unwrapping, that signals among inputs/outs are replaced by their data and every other operand reaches the ufunc untouched (Python scalars stay scalars, Quantities keep their class), single call, kwargs forwarded (also together with out=), the promoted result dtype kept by the wrapper, rewrap in the dispatching signal's class or return of the given out object, Dask-backed out= targets left as NumPy would leave them (own dtype, or TypeError), __array__ protocol incl. copy=True returning a new array. An out= target of another signal class than the operand is validated by its own class. Not decided: per-ufunc values." + RS,
             "NumPy __array_ufunc__/__array__ protocol", "4/C17"),
     "C19": (AI + " on explicit arrays of symbols with exact DFT sums",
             "Decides the definition for N = 1..9 (16 thorough) and ranks 1-3 on every axis: out[m] = (-1)^m analytic(x)[2m] with the one-sided weights, (-1)^m Re(out[m]) = x[2m], ceil(N/2) samples, other axes in place (also when empty), whatever transform pair is used; the symbolic-N result term, a double-precision mixer ramp whatever the data's precision, dtype rule, refusals, the factor-2 agreement with the readers, no overwrite_* option on caller data, no process-wide hook (scipy.fft backend registration, monkey-patching) installed by the package. Not decided: FFT round-off; N beyond the enumerated range is covered by the symbolic term rule only for the fft/ifft formulation." + RS,
